@@ -112,6 +112,64 @@ fn main() {
             let f = args.get(1).cloned().unwrap_or_default();
             std::process::exit(driver::replay(&f));
         }
+        Some("selftest") => {
+            // determinism: every scenario, N seeds, each executed twice in fresh processes (run in
+            // parallel with other runs, i.e. under different load); outcome and event-log hash must agree
+            let n: u64 = arg_val(&args, "--n").and_then(|s| s.parse().ok()).unwrap_or(24);
+            let scns: Vec<&'static scen::Scenario> = scen::all();
+            let work: std::sync::Arc<std::sync::Mutex<Vec<(&'static scen::Scenario, u64)>>> = std::sync::Arc::new(std::sync::Mutex::new(Vec::new()));
+            for sc in &scns {
+                for k in 0..n {
+                    work.lock().expect("lock").push((sc, seed.wrapping_mul(0x9e37_79b9_7f4a_7c15).wrapping_add(k * 1_000_003)));
+                }
+            }
+            let total = work.lock().expect("lock").len();
+            let bad = std::sync::Arc::new(std::sync::Mutex::new(Vec::<String>::new()));
+            let herr = std::sync::Arc::new(std::sync::atomic::AtomicU64::new(0));
+            let mut hs = Vec::new();
+            for _ in 0..jobs {
+                let (work, bad, herr) = (work.clone(), bad.clone(), herr.clone());
+                hs.push(std::thread::spawn(move || loop {
+                    let Some((sc, sd)) = work.lock().expect("lock").pop() else { break };
+                    let plan = driver::plan_for(sc, sd, Tier::Quick);
+                    let run = || {
+                        proc::run_one(
+                            sc,
+                            &proc::RunSpec {
+                                plan: plan.clone(),
+                                sched_seed: sd,
+                                record: false,
+                                replay: None,
+                            },
+                            sc.wall_ms,
+                            true,
+                        )
+                    };
+                    let (a, b) = (run(), run());
+                    let key = |r: &json::J| (r.gs("outcome").to_string(), r.gs("class").to_string(), r.get("stats").map_or(String::new(), |s| s.gs("log_hash").to_string()));
+                    if a.gs("outcome") == "harness-error" || b.gs("outcome") == "harness-error" {
+                        _ = herr.fetch_add(1, std::sync::atomic::Ordering::SeqCst);
+                    } else if key(&a) != key(&b) {
+                        bad.lock().expect("lock").push(format!("{} seed {sd}: {:?} vs {:?}", sc.name, key(&a), key(&b)));
+                    }
+                }));
+            }
+            for h in hs {
+                _ = h.join();
+            }
+            let bad = bad.lock().expect("lock").clone();
+            for b in bad.iter().take(10) {
+                eprintln!("NONDETERMINISTIC {b}");
+            }
+            println!(
+                "selftest: {} scenarios x {n} seeds, each executed twice in fresh processes: {} pairs compared, {} differ, {} ended in a harness error",
+                scns.len(),
+                total,
+                bad.len(),
+                herr.load(std::sync::atomic::Ordering::SeqCst)
+            );
+            std::process::exit(i32::from(!bad.is_empty()) * 2);
+        }
         Some("list") => {
             for s in scen::all() {
                 println!("{:12} {}", s.name, s.about);
@@ -121,7 +179,7 @@ fn main() {
             }
         }
         _ => {
-            eprintln!("usage: simrun batch <PROP> | one <SCENARIO> --seed N | replay <FILE> | list");
+            eprintln!("usage: simrun batch <PROP> | one <SCENARIO> --seed N | replay <FILE> | selftest [--n N] | list");
             std::process::exit(2);
         }
     }
